@@ -108,6 +108,7 @@ theorem ratrecCore_no_fuel (x y N D : Int) : ratrecCore x y N D ≠ .error .fuel
   · rw [if_neg hv]
     have hN : 0 ≤ N := by omega
     have hD : 0 < D := by omega
+    have hy : 2 * N * D < y := by omega
     have hND : 0 ≤ 2 * N * D := by positivity
     have hypos : 0 < y := by omega
     have hNy : N < y := by nlinarith
